@@ -289,7 +289,11 @@ func (e *engine) build(inst int) *workflow.Workflow[Obj, st] {
 		return func(ctx context.Context, r *workflow.TypedRecord[Obj, st]) error {
 			n := e.attempt(5000000+state, r.RunID)
 			rec := r.Record
-			if n < c.hooks[state] {
+			if k := c.hooks[state]; k >= 1000 && n < k-1000 {
+				// a cancelled downstream call: the error wraps context.Canceled
+				e.userTok(5000000+state, &rec, "e51")
+				return fmt.Errorf("downstream call: %w", context.Canceled)
+			} else if k < 1000 && n < k {
 				e.userTok(5000000+state, &rec, "e50")
 				return userErr{50}
 			}
@@ -709,6 +713,12 @@ func runEngine(kind string, a []string) string {
 	c := parseCfg(a[:sep])
 	e := &engine{c: c, s: newSim(), wfs: map[int]*workflow.Workflow[Obj, st]{}, cancels: map[int]context.CancelFunc{}, nproc: map[int]int{}, deadProcs: map[int]int{}}
 	e.s.stamp = c.opt["stamp"] != 0
+	e.s.blind = c.opt["blind"] != 0
+	if c.opt["dl"] != 0 {
+		errInjected = errInjectedDeadline
+	} else {
+		errInjected = errInjectedPlain
+	}
 	for i := 1; i <= int(c.opt["inst"]); i++ {
 		e.start(i)
 	}
